@@ -10,10 +10,15 @@ OPT_KEYS = ('center_extrema', 'burst_method', 'burst_kwargs', 'threshold_kwargs'
             'return_samples')
 
 
-def call(case, api='func'):
-    """Run the real code on deep copies of the case's inputs.  Returns (table | None, exception | None)."""
+def fresh_options(case):
+    return {k: copy.deepcopy(case[k]) for k in OPT_KEYS if k in case}
+
+
+def call(case, api='func', shared=None):
+    """Run the real code on deep copies of the case's inputs (or, with ``shared``, on option objects that the caller re-uses
+    across several calls, as a script that writes its options once does).  Returns (table | None, exception | None)."""
     from bycycle.features import compute_features
-    kw = {k: copy.deepcopy(case[k]) for k in OPT_KEYS if k in case}
+    kw = fresh_options(case) if shared is None else shared
     sig = np.array(case['sig'], copy=True)
     view = case.get('sig_view')
     if view == 'strided':
